@@ -32,7 +32,7 @@ fn main() {
     let hang_secs: u64 = std::env::var("VERIF_HANG_SECS")
         .ok()
         .and_then(|s| s.parse().ok())
-        .unwrap_or(20);
+        .unwrap_or(120);
 
     std::panic::set_hook(Box::new(|_| {}));
 
